@@ -56,8 +56,8 @@ CHECKS = [
         NOTE + "NOT decided: the LU arithmetic itself -- ILLfactor, ftran/btran, ILLfactor_update, ILLbasis_tableau_row (B^-1 B = I for every update history, singular matrices reported): these are stubs here; a change inside factor.c is not detected by this check.",
         TECH, "DESIGN.md 4/C13"),
     chk("C14", "proof",
-        "Frame half ('writing does not consume the basis'): QSwrite_basis under contract with an empty assigns/frees clause on everything reachable from the problem (dfcc), loops of the basis conversion closed by loop contracts, symbolic basis sizes up to 30000; the problem's basis, status and factorization flag are unchanged whatever the writer returns.",
-        NOTE + "Not decided: the textual round trip (ILLlib_writebasis / ILLlib_readbasis: file text, name lookup), only listed where a group for it appears in the evidence.",
+        "Frame half ('writing does not consume the basis'): QSwrite_basis under contract with an empty assigns/frees clause on everything reachable from the problem (dfcc, loop contracts, symbolic basis sizes up to 30000) -- unbounded.  Round-trip half, bounded (nstruct, nrows <= 3): the real ILLlib_writebasis emits exactly enc(B) (k-th non-basic row paired with the k-th basic column, then UL records) and the real ILLlib_readbasis fed enc(B) returns B up to the documented lower<->free convention, both against ONE record-level specification of the file.",
+        NOTE + "Not decided: the text layer of the basis file (EGioPrintf formatting, MPS line tokenising, name lookup) is replaced by a record stream in the round-trip groups; ILLlib_getbasis (internal status -> codes).",
         TECH, "DESIGN.md 4/C14"),
     chk("C16", "other",
         "Bounded contract check of QScopy_prob (nstruct <= 3, loops completely unwound, everything else symbolic): independent (no pointer member of the copy's pricing info equals the source's, source untouched) and faithful (rows handed over in one block, k-th column receives the k-th structural column's entries, objective, bounds, name, integer mark; sense, display/scaling, pricing rules copied).",
